@@ -53,7 +53,7 @@ def run(tier, seed):
     traces.append((tr, "sequential replay of TLC histories"))
     for i, (workers, tasks) in enumerate(((2, 4), (8, 12)) if quick else ((2, 3), (4, 8), (8, 16), (16, 32))):
         tc = os.path.join(wd, f"conc_{i}.ndjson")
-        vp.run([os.path.join(bd, "eng_conc"), "--kind", "file", "--progs", fam, "--workers", str(workers),
+        vp.run_subject([os.path.join(bd, "eng_conc"), "--kind", "file", "--progs", fam, "--workers", str(workers),
                 "--tasks", str(tasks), "--runs", str(60 if quick else 600), "--phases", "2", "--pertask", "4",
                 "--sleepus", "150", "--seed", str(seed * 10 + i), "--out", tc], timeout=3000)
         traces.append((tc, f"concurrent entry workers={workers} tasks={tasks}"))
